@@ -117,14 +117,15 @@ type Field struct {
 
 // Var is a variable in scope.
 type Var struct {
-	Name    string
-	T       *Ty
-	Mutable bool // declared with var (pointer-wrapped in GooseLang) → assignable, addressable
-	MinLen  int  // slices: statically known lower bound of len
-	NonNil  bool // pointers / maps: known non-nil
-	Used    bool
-	Closure *FuncSig // non-nil for variables holding a function literal
-	LoopVar bool
+	Name     string
+	T        *Ty
+	CapKnown bool // a := variable bound directly to make(...) / a literal: its capacity is the same in Go and GooseLang (after an append it is not)
+	Mutable  bool // declared with var (pointer-wrapped in GooseLang) → assignable, addressable
+	MinLen   int  // slices: statically known lower bound of len
+	NonNil   bool // pointers / maps: known non-nil
+	Used     bool
+	Closure  *FuncSig // non-nil for variables holding a function literal
+	LoopVar  bool
 	// FuncHolder: the variable holds an Fh (or *Fh): a struct with a function-typed field
 	FuncHolder bool
 	// Big: a 256-element table (see varsOf)
